@@ -433,9 +433,12 @@ class SpyBreaker(CircuitBreaker):
         super().__init__(**kw)
         self._rv_sink = sink
 
-    def allow(self):
-        d = super().allow()
+    def allow(self, *a, **kw):
+        before = CircuitBreaker.state.fget(self)
+        d = super().allow(*a, **kw)
         w = env.current()
+        if CircuitBreaker.state.fget(self) is not before and d.event is None:
+            self._rv_sink().append(("br.silent", "allow", before.value, CircuitBreaker.state.fget(self).value))
         self._rv_sink().append(("br.allow", d.allowed, d.state.value, d.event, w.now() if w else None, CircuitBreaker.state.fget(self).value))
         return d
 
@@ -449,24 +452,38 @@ class SpyBreaker(CircuitBreaker):
             h.cur.trace.append(("fault", "breaker." + op, f["exc"]))
             raise make_exc(f["exc"])
 
-    def record_success(self):
+    def record_success(self, *a, **kw):
         self._rv_interrupt("record_success")
-        r = super().record_success()
+        before = CircuitBreaker.state.fget(self)
+        r = super().record_success(*a, **kw)
         w = env.current()
         self._rv_sink().append(("br.success", r, w.now() if w else None))
+        after = CircuitBreaker.state.fget(self)
+        if after is not before and r is None:
+            self._rv_sink().append(("br.silent", "record_success", before.value, after.value))
         return r
 
-    def record_failure(self, klass):
+    def record_failure(self, klass, *a, **kw):
+        # (extra arguments a changed library may pass are handed through: the spy observes the protocol, it does not define it)
         self._rv_interrupt("record_failure")
-        r = super().record_failure(klass)
+        before = CircuitBreaker.state.fget(self)
+        r = super().record_failure(klass, *a, **kw)
         w = env.current()
         self._rv_sink().append(("br.failure", getattr(klass, "name", repr(klass)), r, w.now() if w else None))
+        after = CircuitBreaker.state.fget(self)
+        if after is not before and r is None:
+            self._rv_sink().append(("br.silent", "record_failure", before.value, after.value))
         return r
 
-    def record_cancel(self):
-        r = super().record_cancel()
+    def record_cancel(self, *a, **kw):
+        before = CircuitBreaker.state.fget(self)
+        r = super().record_cancel(*a, **kw)
         w = env.current()
         self._rv_sink().append(("br.cancel", w.now() if w else None))
+        after = CircuitBreaker.state.fget(self)
+        if after is not before:
+            # record_cancel() has no way of announcing a transition (it returns nothing to emit): a state change in here is silent
+            self._rv_sink().append(("br.silent", "record_cancel", before.value, after.value))
         return r
 
 
@@ -575,11 +592,17 @@ class Harness:
             raise x
         return None
 
-    def hook_fault(self, name):
+    def hook_fault(self, name, place=None):
         f = self.fault
         i = self.count("hook:" + name)
+        j = self.count("hook:" + name + "@" + place) if place else i
         if f is None or f.get("kind") != "hook" or f["hook"] != name:
             return
+        if f.get("place"):
+            # only the hook configured at that level fails (a policy-level hook and a per-call hook are different objects)
+            if place != f["place"]:
+                return
+            i = j
         if f["at"] == "always" or f["at"] == i:
             self.cur.fault_fired += 1
             raise make_exc(f["exc"])
@@ -879,7 +902,7 @@ class Harness:
                 h.cur.trace.append(("before_sleep", place, ctx.attempt, s))
                 await h.susp("before_sleep")
                 slow()
-                h.hook_fault("before_sleep")
+                h.hook_fault("before_sleep", place)
 
             if self.sc.get("bs_kind") == "lambda":
                 return lambda ctx, s: abs_(ctx, s)
@@ -890,7 +913,7 @@ class Harness:
                 def strict(ctx, s):
                     h.cur.trace.append(("before_sleep", place, ctx.attempt, s))
                     slow()
-                    h.hook_fault("before_sleep")  # raises at the planned invocation ...
+                    h.hook_fault("before_sleep", place)  # raises at the planned invocation ...
 
                     async def rest():
                         await h.susp("before_sleep")
@@ -906,7 +929,7 @@ class Harness:
         def bs(ctx, s):
             h.cur.trace.append(("before_sleep", place, ctx.attempt, s))
             slow()
-            h.hook_fault("before_sleep")
+            h.hook_fault("before_sleep", place)
 
         return bs
 
@@ -1029,6 +1052,13 @@ class Harness:
                 kw["trip_on"] = {EC[k] for k in br["trip_on"]}
             if br.get("class_thresholds"):
                 kw["class_thresholds"] = {EC[k]: v for k, v in br["class_thresholds"].items()}
+            if br.get("epoch"):
+                # the breaker is given its own clock (clock=time.time, a clock shared with another component): it ticks like the
+                # process clock but its readings are a constant away from time.monotonic()
+                import time as _time
+
+                _ep = float(br["epoch"])
+                kw["clock"] = lambda: _time.monotonic() + _ep
             self.breaker = (FalsySpyBreaker if br.get("falsy") else SpyBreaker)(self._sink, **kw)
         place = self.place
         pol_kw = {}
